@@ -54,8 +54,18 @@ package ociclient
 //@   requires resp != nil && resp.Request != nil
 //@   ensures[always-an-error] result != nil
 
+// The HEAD fallback table: a body-less response is mapped to the standard
+// error whose specification status it carries.
 //@ func makeError1
 //@   requires resp != nil && resp.Request != nil
+//@   modifies nothing
+//@   ensures[head-404] resp.Request.Method == "HEAD" && resp.StatusCode == 404 ==> result == ociregistry.ErrNameUnknown
+//@   ensures[head-401] resp.Request.Method == "HEAD" && resp.StatusCode == 401 ==> result == ociregistry.ErrUnauthorized
+//@   ensures[head-403] resp.Request.Method == "HEAD" && resp.StatusCode == 403 ==> result == ociregistry.ErrDenied
+//@   ensures[head-429] resp.Request.Method == "HEAD" && resp.StatusCode == 429 ==> result == ociregistry.ErrTooManyRequests
+//@   ensures[head-400] resp.Request.Method == "HEAD" && resp.StatusCode == 400 ==> result == ociregistry.ErrUnsupported
+//@   ensures[head-other] resp.Request.Method == "HEAD" && resp.StatusCode != 404 && resp.StatusCode != 401 &&
+//@     resp.StatusCode != 403 && resp.StatusCode != 429 && resp.StatusCode != 400 ==> result == nil
 
 // isJSONMediaType consumes its input: every trip round the loop strictly
 // shortens m.
